@@ -151,7 +151,10 @@ def build(S, n_bars, hourly, ops, with_trigger):
     elif with_trigger:
         st.triggers.append(GhostTrigger(S, trace, m1, st.made))
     a.strategy = st
-    prices = pd.DataFrame({"USD": [Decimal(1)] * n_bars, "TKA": [Decimal(i + 2) for i in range(n_bars)]}, index=idx)
+    # the price frame may cover more than the bars (it "should be larger than or equal to data"): two earlier minutes and one later one,
+    # every row with its own price, so a row taken by POSITION instead of by timestamp shows
+    pidx = pd.date_range(idx[0] - pd.Timedelta(minutes=2), periods=n_bars + 3, freq="min")
+    prices = pd.DataFrame({"USD": [Decimal(1)] * (n_bars + 3), "TKA": [Decimal(i) for i in range(n_bars + 3)]}, index=pidx)
     a.set_price(prices, USD_T)
     return a, st, trace, idx
 
@@ -225,7 +228,7 @@ def po_run(S):
     for i in range(len(idx)):
         S.check(f"history:row{i}-carries-the-bar's-timestamp", a.account_status[i].timestamp == idx[i].to_pydatetime())
     S.check("history-frame:one-row-per-bar-with-the-bar's-timestamp-and-prices", list(a.account_status_df.index) == list(idx)
-            and [a.account_status_df[("price", "TKA")].iloc[i] for i in range(len(idx))] == [Decimal(i + 2) for i in range(len(idx))])
+            and [a.account_status_df[("price", "TKA")].iloc[i] for i in range(len(idx))] == [Decimal(i + 2) for i in range(len(idx))])        # bar i is row i + 2 of the price frame
     S.check("actions:every-recorded-action-is-in-the-log-once", len(a.actions) == len(st.made) and all(x is y[0] for x, y in zip(a.actions, st.made)))
     S.check("actions:stamped-with-the-bar-in-which-they-ran", all(str(pd.Timestamp(act.timestamp)) == ts for act, ts in st.made))
     S.check("actions:each-notified-exactly-once-in-order", len(st.notified) == len(st.made) and all(x is y[0] for x, y in zip(st.notified, st.made)))
